@@ -111,6 +111,7 @@ class Gen:
         self.max_bytes = max_bytes
         self.huge_ints = huge_ints
         self.max_depth = max_depth
+        self.pool: list = []  # finished containers, re-used to build values in which one object occurs at several positions
 
     def _c(self, k: str) -> None:
         self.counts[k] = self.counts.get(k, 0) + 1
@@ -216,7 +217,19 @@ class Gen:
                 return v
 
     def value(self, depth: int = 0):
+        v = self._value(depth)
+        if type(v) in (list, dict, tuple, set, frozenset) and len(self.pool) < 50:
+            self.pool.append(v)
+        elif type(v) in (list, dict) and self.r.random() < 0.2:
+            self.pool[self.r.randrange(len(self.pool))] = v
+        return v
+
+    def _value(self, depth: int = 0):
         r = self.r
+        if depth > 0 and self.pool and r.random() < 0.08:
+            # the very same (finished, hence acyclic) object at another position: shared, not copied
+            self._c("aliased")
+            return r.choice(self.pool)
         if depth >= self.max_depth or r.random() < 0.35 + 0.1 * depth:
             return self.leaf()
         kind = r.choice(CONTAINER_KINDS)
@@ -262,6 +275,11 @@ class Gen:
             lambda: {(1, (2, (3, frozenset([4])))): [{"k": ({1, 2}, frozenset("ab"))}]},
             lambda: [2**31 - 1, 2**31, -(2**31), -(2**31) - 1, -(2**31) + 1],
             lambda: {"a": {"b": {"c": {"d": [1, (2, {3: {4}})]}}}},
+            lambda: (lambda row: [row, row, [row]])([1, 2, 3]),
+            lambda: (lambda d: {"a": d, "b": d, "c": [d, (d,)]})({"k": [1]}),
+            lambda: (lambda t: (t, t, {"x": t}))((1, [2])),
+            lambda: (lambda e: [e, e, e])([]),
+            lambda: (lambda s_: [s_, {"k": s_}])({1, 2}),
         ]
         self._c("special")
         return shapes[i % len(shapes)]()
